@@ -93,3 +93,46 @@ Definition cstart_magic (nflush : nat) : ccmd :=
     command completed. *)
 Definition magic_storage {A} (s : ccmd) (before after : A) : A :=
   if Nat.ltb 0 (cc_done s) then after else before.
+
+(** ** The empty-copy bookkeeping exactly as the middleware codes it
+
+    processMemCopyH2D/D2HCommand end with rememberIfEmpty: the command is put on
+    the list emptyCopies when it "waits for no request at all"
+    (len(cmd.GetReqs()) == 0 — flush requests count).  Tick starts with
+    completeEmptyCopies, which completes (dequeues) EVERY command on that list
+    without looking at its requests, and clears the list.  A response is matched
+    by findCommandByReq against the commands at the heads of the queues: for a
+    command that was dequeued it panics ("cannot find command").
+    [by_bytes = false] is the decision of the code; [by_bytes = true] is the
+    decision "the copy moves zero bytes" (no COPY request was created), which
+    differs exactly for a zero-byte copy that needs a flush. *)
+Definition is_copy_req (r : N * qkind) : bool := match snd r with QCopy => true | QFlush => false end.
+
+Definition remember_if_empty (by_bytes : bool) (reqs : list (N * qkind)) : bool :=
+  if by_bytes then is_nil (filter is_copy_req reqs) else is_nil reqs.
+
+Definition kstart (by_bytes : bool) (reqs : list (N * qkind)) : ccmd :=
+  mkCmd reqs (remember_if_empty by_bytes reqs) 0 false reqs [] false.
+
+Definition kstep (s : ccmd) (e : cev) : ccmd :=
+  if cc_crashed s then s else
+  match e with
+  | CRsp id =>
+    match (if Nat.ltb 0 (cc_done s) then None else lookup_req id (cc_reqs s)) with
+    | None => mkCmd (cc_reqs s) (cc_empty s) (cc_done s) true (cc_all s) (cc_ans s) (cc_ticked s)
+    | Some _ =>
+      let rest := remove_req id (cc_reqs s) in
+      mkCmd rest (cc_empty s) (if is_nil rest then S (cc_done s) else cc_done s) false
+            (cc_all s) (cc_ans s ++ [id]) (cc_ticked s)
+    end
+  | CTick =>
+    if cc_empty s
+    then mkCmd (cc_reqs s) false (S (cc_done s)) false (cc_all s) (cc_ans s) true
+    else mkCmd (cc_reqs s) (cc_empty s) (cc_done s) false (cc_all s) (cc_ans s) true
+  end.
+
+Definition krun (s : ccmd) (evs : list cev) : ccmd := fold_left kstep evs s.
+
+(** A zero-byte copy: no copy request; [nflush] flush requests (0 when the
+    address meets no dirty buffer, one per GPU otherwise). *)
+Definition zero_byte_reqs (nflush : nat) : list (N * qkind) := mk_reqs nflush 0.
